@@ -99,6 +99,8 @@ def universe(thorough):
                  I(256 ** 20 + 5), I(256 ** 20 + 4 * 256 ** 10), I(-(256 ** 20 + 5)), F(float(256 ** 20)), I(10 ** 30), F(1e30), I(2 ** 971 * (2 ** 53 - 1) - 1), F(1e-300), I(7 * 256 ** 299)]
     atoms = [A(""), A("a"), A("b"), A("aa"), A("ab"), A("é"), A("z"), A("€")]
     ids = [Ref([1]), Ref([2]), Ref([1, 2]), Ref([1], c=2), Ref([1], loc=[9, 8, 7, 6, 5, 4, 3, 2]),
+           # zero words at either end, and no words at all: different word sequences are different references
+           Ref([1, 0]), Ref([1, 2, 0]), Ref([0, 1]), Ref([0]), Ref([]), Ref([1, 2, 0, 0]),
            Exp("m", "f", 1), Exp("m", "f", 2), Exp("m", "g", 1), Fun(1, []), Fun(2, []), Fun(1, [I(1)]), Fun(1, [F(1.0)]), Fun(1, [I(2)]),
            Port(1), Port(2), Port(1, c=2), Port(1, loc=[1, 1, 1, 1, 1, 1, 1, 1]),
            Pid(1), Pid(2), Pid(1, s=1), Pid(1, c=2), Pid(1, loc=[9, 8, 7, 6, 5, 4, 3, 2])]
